@@ -4,7 +4,7 @@ EXTENDS MarkupConverters
 MStr(n) == UNION {[1..m -> {cPLAIN, cLT, cAMP, cQUOT, cAPOS, cPLUS, cSP}] : m \in 0..n}
 MStr2 == MStr(2)
 MStr1 == MStr(1)
-MPalette == {<<cPLAIN>>, <<cLT, cAMP>>, <<cQUOT, cPLUS, cAPOS>>, <<cSP>>, <<cPLAIN, cSP, cPLAIN>>}
+MPalette == {<<cPLAIN>>, <<cLT, cAMP>>, <<cQUOT, cPLUS, cAPOS>>, <<cSP>>, <<cPLAIN, cSP, cPLAIN>>, <<cPCT, cFMT>>, <<cLBRACE, cFMT, cRBRACE>>}
 HtmlKinds == {"page", "textboxh", "textboxv", "textline", "char", "anno", "figure", "line", "image"}
 HocrKinds == {"page", "textboxh", "textline", "char", "anno", "figure"}
 LineKinds == {"page", "textboxh", "textline", "char", "anno"}
